@@ -64,6 +64,9 @@ def run(ctx):
             tgt = cfg.fn_target(f)
             d = deny_class(tgt) or deny_class(f["path"])
             if d:
+                from rules.common import deny_exempt
+                if deny_exempt(f, t):
+                    continue
                 if from_macro(blk["sp"], {"debug_assert", "debug_assert_eq", "debug_assert_ne"}):
                     pass
                 fl, ln = loc_of(blk)
